@@ -35,6 +35,7 @@ R7 (K3) RepositoryPackCollection._commit_write_group: every exceptional exit of 
    allocate() passes a handler that removes the allocated packs from memory and re-raises.
 R8 (from a third-round agent's observation) in _abort_write_group the loop over the resumed packs is reachable from the exception edge
    of self._new_pack.abort(): a failing first step does not leave the indices of the resumed packs visible.
+R9 (fourth round) _resumed_packs is changed only inside RepositoryPackCollection; the R7 handler walks exactly the list its allocate() calls fed.
 Does not decide: that suspend -> resume -> commit yields the same content as a direct commit (value equality).
 """
 
@@ -322,6 +323,27 @@ def run(ctx):
         if not ok_h:
             uncovered.append(f"L{c.lineno}:{norm(c)}")
     ctx.check("R7-failed-publication-forgets-allocation", w7, not uncovered and min(c.lineno for c in pubs7) > max(c.lineno for c in allocs7), "a failure of autopack() / _save_pack_names() after allocate() passes a handler that removes the allocated packs from memory and re-raises", construct="; ".join(uncovered), message=f"_commit_write_group lets a failure of {uncovered} propagate with the new pack still allocated in memory: the write group is aborted, but the next write group committed through the same repository object writes that pack into pack-names — the revision of a commit that raised becomes visible")
+    # the handler takes back exactly what this commit allocated — the list its allocate() calls fed, nothing wider
+    alloc_lists = {call_recv(c) for c in calls_in(fn7) if call_attr(c) == "append" and c.args and any(norm(c.args[0]) == norm(a.args[0]) for a in allocs7 if a.args)}
+    hloops = [l_ for t in ast.walk(fn7) if isinstance(t, ast.Try) for h in t.handlers if _forgets(h) for l_ in ast.walk(h) if isinstance(l_, ast.For)]
+    wide = [f"L{l_.lineno}: for … in {norm(l_.iter)[:50]}" for l_ in hloops if norm(l_.iter) not in alloc_lists]
+    ctx.check("R7-failed-publication-forgets-allocation", w7, bool(hloops) and not wide, f"the handler walks {sorted(alloc_lists)} (the packs this commit allocated) and only those", construct="; ".join(wide), message=f"the failure handler of _commit_write_group forgets more than the packs this commit allocated ({'; '.join(wide)}): after an autopack whose final save failed, the autopack's source packs were already dropped from memory, so forgetting its output too records them as 'deleted by me' — the next successful _save_pack_names through the same object removes them from pack-names with nothing in their place")
+    # ---- R9: only the pack collection empties its list of resumed packs ----------------------------------------------------
+    outside = []
+    for q_, f_ in repo.module(PR).functions().items():
+        if q_.startswith(COLL + "."):
+            continue
+        for n_ in ast.walk(f_):
+            tgt = None
+            if isinstance(n_, ast.Delete):
+                tgt = [norm(t) for t in n_.targets if "_resumed_packs" in norm(t)]
+            elif isinstance(n_, (ast.Assign, ast.AugAssign)):
+                tgt = [norm(t) for t in (n_.targets if isinstance(n_, ast.Assign) else [n_.target]) if "_resumed_packs" in norm(t)]
+            elif isinstance(n_, ast.Call) and call_attr(n_) in ("clear", "remove", "pop") and "_resumed_packs" in (call_recv(n_) or ""):
+                tgt = [norm(n_)]
+            if tgt:
+                outside.append(f"{q_} L{n_.lineno}: {tgt[0][:60]}")
+    ctx.check("R9-resumed-list-owned-by-collection", PR, not outside, "_resumed_packs is emptied or changed only by RepositoryPackCollection's own methods (which remove the packs' indices first)", construct="; ".join(outside), message=f"the list of resumed packs is changed from outside the collection ({'; '.join(outside)}): the packs were registered with add_pack_to_memory, so forgetting them without removing their indices leaves the suspended texts and signatures visible through the repository object outside any write group")
     # ---- R8: an abort forgets the resumed packs even when aborting the new pack fails ---------------------------------
     fn8, g8, w8 = fn_cfg(ctx, PR, f"{COLL}._abort_write_group")
     ab_new = need(w8, calling(g8, attr="abort", recv="self._new_pack"), "self._new_pack.abort()")
